@@ -2,6 +2,7 @@ package checks
 
 import (
 	"fmt"
+	"math/rand"
 
 	"verif/engine/run"
 )
@@ -83,8 +84,29 @@ func init() {
 		Technique: "symbolic execution of the real LoadFilter with syscall.Syscall redirected to a kernel-contract stub: at the seccomp call the pointer argument is dereferenced (sock_fprog, then len elements) and SMT decides that length and every element equal the raw encoding of the compiled program and that the memory at the pointer, run by the kernel model, decides like the policy for all events",
 		Rule:      "one instance = one policy shape through LoadFilter; event, operands, actions, flag word, NoNewPrivs and all kernel answers symbolic.",
 		Jobs:      loadJobs("C08"),
+		Extra: func(c *Ctx) ([]Finding, error) {
+			// Not the deciding step: the running kernel is sampled. Policies over harmless probe
+			// syscalls are installed (real LoadFilter, real seccomp) in child processes and probed with
+			// chosen 64-bit register values; errno / success / SIGSYS must equal what the kernel model
+			// and the reference decision say. A disagreement is a reproduced failure of C08's
+			// host-kernel clause (or of the model) and is reported; an environment where no filter
+			// can be installed skips this part.
+			tab, err := c.ArchTable("X86_64")
+			if err != nil {
+				return nil, err
+			}
+			summary, bad, fails := kernelValidationLines(c, rand.New(rand.NewSource(c.Seed)), tab, c.Tier)
+			c.Ev.Extra["running_kernel_sampled"] = summary
+			var fs []Finding
+			if bad > 0 && len(fails) > 0 {
+				fs = append(fs, Finding{Tag: "C08.kernel", What: "the running kernel disagrees with the policy for a really installed filter: " + fails[0], Replay: map[string]interface{}{"failures": fails}})
+			} else if bad > 0 {
+				return nil, fmt.Errorf("kernel sampling did not run: %s", summary)
+			}
+			return fs, nil
+		},
 		NeedCovers: []string{"cover.decided", "cover.attached"},
-		Bounds:    map[string]interface{}{"shapes": "12 (quick) / 60 (thorough) small shapes by stride, conditions on all six arguments in two groups, the whole x86_64 table, one 64-list conditional shape", "values": "all events, operands, actions, flags, kernel answers"},
+		Bounds:    map[string]interface{}{"running_kernel": "sampled, not decided: 60 (quick) / 400 (thorough) policies over getpid/getppid/get*id/gettid with conditions on all six registers, 12/24 probes each incl. x32 numbers and kill_process", "shapes": "12 (quick) / 60 (thorough) small shapes by stride, conditions on all six arguments in two groups, the whole x86_64 table, one 64-list conditional shape", "values": "all events, operands, actions, flags, kernel answers"},
 		Outside:   []string{"the running kernel's evaluation of those bytes (represented by the KMI model), SIGSYS delivery and errno delivery to the probe syscall", "programs of >= 65536 instructions where uint16(len) would truncate (kernel limit is 4096)", "targets other than linux/amd64 for the syscall numbers (C19)"},
 		Assumptions: loadStubs, Trusted: policyTrusted,
 	})
